@@ -550,9 +550,9 @@ def ev_for(prop, cfg, tier):
             return call_events(n, sp) + [('dump',), ('load',), ('clear',), ('arch', False), ('arch', True), ('dumpks', 2, 0, 1)]
         return base_events(n, sp, mgmt=True) + [('redec',)]
     if prop == 'C02':
-        return base_events(n, sp, mgmt=True, raises=False) + [('redec',), ('raise', 0, 'Boom')]
+        return base_events(n, sp, mgmt=True, raises=False) + [('redec',), ('redecs',), ('raise', 0, 'Boom')]
     if prop == 'C07':
-        return base_events(n, sp, mgmt=True) + [('raise', 1, 'Boom'), ('aclear',), ('reclone',)]
+        return base_events(n, sp, mgmt=True) + [('raise', 1, 'Boom'), ('aclear',), ('reclone',), ('redecs',)]
     if prop == 'C15' and cfg.get('unkeyable'):
         return call_events(n, 1) + [('callu', 0), ('callu', 1), ('callu', 3), ('raiseu', 0), ('raiseu', 3), ('raise', 0, 'Boom'), ('clear',), ('clearks',), ('load',)]
     if prop == 'C15':
